@@ -24,7 +24,7 @@ use std::collections::{BTreeMap, BTreeSet};
 use std::path::PathBuf;
 use std::sync::Arc;
 use std::time::Duration;
-use trace_store::{synced_lens_after, Fault, Op, Rec, TraceWalStore};
+use trace_store::{live_lens_after, synced_lens_after, Fault, Op, Rec, TraceWalStore};
 use vcore::runner::catch;
 use vcore::{CaseCtx, Level, Session};
 
@@ -577,6 +577,10 @@ fn check_run(
     Ok(v)
 }
 
+fn kind_of(fl: &[(u64, Fault)]) -> Fault {
+    fl[0].1
+}
+
 /// single-fault kinds applicable to the call recorded as `rec`
 fn kinds_for(rec: &Rec) -> Vec<Fault> {
     match rec.op {
@@ -617,6 +621,79 @@ fn batch_shape(w: &Workload, deltas: &[(Arc<ReplicationDelta>, Vec<u8>, u64)], r
         idx += wave.len();
     }
     (largest, straddle)
+}
+
+/// Restart on an image (the files a crash or a kill left behind), one more acknowledged write,
+/// shutdown, recover: everything that was recoverable from the image must still be recovered,
+/// the new write too, and the restarted rotator must not create a file that exists.
+/// Returns false if the write after the restart was not acknowledged (not a durability claim).
+fn restart_cycle(w: &Workload, r: &RunResult, lens: &BTreeMap<String, usize>, what: &dyn Fn() -> String) -> Result<bool, String> {
+    let image: BTreeMap<String, Vec<u8>> = lens
+        .iter()
+        .map(|(n, &len)| (n.clone(), r.files.get(n).map(|b| b[..len.min(b.len())].to_vec()).unwrap_or_default()))
+        .collect();
+    let baseline = catch(|| WalRotator::new(TraceWalStore::from_files(image.clone()), 1 << 20).and_then(|x| x.recover_all_entries()))
+        .map_err(|p| format!("{}: recovery of the image panicked: {}", what(), p))?
+        .map_err(|e| format!("{}: recovery of the image failed: {}", what(), e))?;
+    let store = TraceWalStore::from_files(image.clone());
+    let cfg = WalConfig {
+        enabled: true,
+        wal_dir: PathBuf::from("/nonexistent-c09"),
+        fsync_policy: FsyncPolicy::Always,
+        max_file_size: (w.max_file_size as usize).max(17),
+        group_commit_max_entries: 1,
+        group_commit_max_wait: Duration::ZERO,
+        truncation_check_interval: Duration::from_secs(3600),
+    };
+    let rid = ReplicaId::new(9);
+    let rv = ReplicatedValue::with_value(SDS::new(b"after-restart".to_vec()), LamportClock { time: 1, replica_id: rid });
+    let d = ReplicationDelta::new("after-restart".to_string(), rv, rid);
+    let new_b = bincode::serialize(&d).expect("bincode of a delta");
+    let d = Arc::new(d);
+    let st = store.clone();
+    let acked = catch(move || {
+        vcore::block_on(async move {
+            let (h, task) = spawn_wal_actor(st, cfg).map_err(|e| format!("spawn_wal_actor on the image: {}", e))?;
+            let res = h.write_durable(d, 1).await;
+            h.shutdown().await;
+            drop(h);
+            task.await.map_err(|e| format!("the WAL actor ended abnormally: {}", e))?;
+            Ok::<bool, String>(res.is_ok())
+        })
+    })
+    .map_err(|p| format!("{}: restart panicked: {}", what(), p))
+    .and_then(|x| x)
+    .map_err(|e| format!("{}: {}", what(), e))?;
+    let files_now = store.final_files();
+    let got = WalRotator::new(TraceWalStore::from_files(files_now.clone()), 1 << 20)
+        .and_then(|x| x.recover_all_entries())
+        .map_err(|e| format!("{}: recovery after the restart failed: {}", what(), e))?;
+    let describe = || {
+        format!(
+            "image before the restart {:?}; files after it {:?}; names created over an existing file: {:?}",
+            image.iter().map(|(n, b)| (n.clone(), b.len())).collect::<Vec<_>>(),
+            files_now.iter().map(|(n, b)| (n.clone(), b.len())).collect::<Vec<_>>(),
+            store.replaced()
+        )
+    };
+    for e in &baseline {
+        if !got.iter().any(|g| g.data == e.data && g.timestamp == e.timestamp) {
+            return Err(format!(
+                "{}: an entry (stamp {}, {} payload bytes) that the image held is no longer recovered after restart + one write; {}",
+                what(),
+                e.timestamp,
+                e.data.len(),
+                describe()
+            ));
+        }
+    }
+    if !store.replaced().is_empty() {
+        return Err(format!("{}: the restarted rotator created a file that existed; {}", what(), describe()));
+    }
+    if acked && !got.iter().any(|g| g.data == new_b) {
+        return Err(format!("{}: the write acknowledged after the restart is not recovered; {}", what(), describe()));
+    }
+    Ok(acked)
 }
 
 /// Life cycle behind the fault-free run: crash at its end -> restart on the durable image ->
@@ -747,8 +824,36 @@ fn check_workload(w: &Workload, ctx: &mut CaseCtx<'_>) -> Result<(), String> {
     }
 
     // ---- life cycle behind the fault-free run (crash, restart, truncate, restart, write)
-    if !is_large(w) && !is_wide(w) {
+    let cycles = !is_large(w) && !is_wide(w);
+    let mut unacked_restart_writes = 0u32;
+    if cycles {
         evals += life_cycle(w, &free)?;
+        // restart at EVERY instant of the fault-free run -- also inside a rotation, where the
+        // newest file exists but is still empty / has an unsynced header -- on the durable
+        // image (power loss) and on the live image (process killed)
+        let durable = synced_lens_after(&free.log);
+        let live = live_lens_after(&free.log);
+        let mut done: BTreeSet<BTreeMap<String, usize>> = BTreeSet::new();
+        for c in 0..=n0 {
+            for (kind, lens) in [("durable", &durable[c]), ("live", &live[c])] {
+                if !done.insert(lens.clone()) {
+                    continue;
+                }
+                evals += 1;
+                let ok = restart_cycle(w, &free, lens, &|| {
+                    format!(
+                        "fault-free run, stop after call #{} ({}), restart on the {} image, one more write (max_file_size={})",
+                        c,
+                        if c == 0 { "nothing yet".to_string() } else { format!("{:?} {}", free.log[c - 1].op, free.log[c - 1].file) },
+                        kind,
+                        w.max_file_size
+                    )
+                })?;
+                if !ok {
+                    unacked_restart_writes += 1;
+                }
+            }
+        }
     }
 
     // ---- the generated fault script (0..3 faults)
@@ -802,6 +907,36 @@ fn check_workload(w: &Workload, ctx: &mut CaseCtx<'_>) -> Result<(), String> {
             evals += v.instants;
             recoveries += v.recoveries;
             runs += 1;
+            // restart right behind the faulted call (e.g. a failed / partial header append as
+            // the last I/O) and at the end of the run, on the durable and on the live image
+            if cycles {
+                let durable = synced_lens_after(&r.log);
+                let live = live_lens_after(&r.log);
+                let mut done: BTreeSet<BTreeMap<String, usize>> = BTreeSet::new();
+                for c in [i + 1, r.log.len()] {
+                    for (kind, lens) in [("durable", &durable[c]), ("live", &live[c])] {
+                        if !done.insert(lens.clone()) {
+                            continue;
+                        }
+                        evals += 1;
+                        let ok = restart_cycle(w, &r, lens, &|| {
+                            format!(
+                                "fault {:?} on call #{} ({:?} {}), stop after call #{}, restart on the {} image, one more write (max_file_size={})",
+                                kind_of(&fl),
+                                i,
+                                r.log[i].op,
+                                r.log[i].file,
+                                c,
+                                kind,
+                                w.max_file_size
+                            )
+                        })?;
+                        if !ok {
+                            unacked_restart_writes += 1;
+                        }
+                    }
+                }
+            }
             // thorough: a second fault shortly behind the first
             if thorough && n0 <= 40 {
                 for j in i + 1..(i + 7).min(r.log.len()) {
@@ -821,6 +956,9 @@ fn check_workload(w: &Workload, ctx: &mut CaseCtx<'_>) -> Result<(), String> {
         }
     }
     let _ = recoveries;
+    if unacked_restart_writes > 0 {
+        ctx.label("restart_write_not_acked");
+    }
     ctx.label(&format!("runs_per_workload={}", match runs { 0..=9 => "<10", 10..=49 => "10-49", 50..=199 => "50-199", _ => "200+" }));
     if largest >= 2 {
         // every workload is executed under faults (the enumeration), so the rule reduces to
